@@ -60,7 +60,7 @@ def main():
         elif not build():
             rec["status"] = "does-not-build"
         else:
-            env = f"RSIM_CHECKED_EXE={SIM}/target/checked/rsim " if prop in ("C04", "C09", "C13") else ""
+            env = f"RSIM_CHECKED_EXE={SIM}/target/checked/rsim " if prop in ("C04", "C09", "C13", "C16") else ""
             rc, out = sh(f"{env}{SIM}/target/release/rsim check {prop} --tier quick", cwd=SIM)
             m = re.search(r"replay=\S*/([^/\s]+)\.json", out)
             rec["status"] = "caught" if rc == 1 and m else ("missed" if rc == 0 else f"rc={rc}")
